@@ -365,7 +365,7 @@ func runHistories(c *ctx, which string) error {
 				if !seenTab[n] && which != "c15" {
 					seenTab[n] = true
 					if data, err := ioutil.ReadFile(filepath.Join(dir, n)); err == nil {
-						c.emit("wellformed", hx(data), "ok")
+						c.emit("wellformed", hx(data)+"|"+fmt.Sprint(b2i(!cfg.Unaligned)), "ok")
 						hist["wellformed-files"]++
 					}
 				}
